@@ -166,7 +166,9 @@ public:
 
     // ---- program log -------------------------------------------------------------------------
     std::vector<std::string> log;
+    bool trace{false};
     void note(const std::string& s) {
+        if (trace) { std::fprintf(stderr, "TRACE %s\n", s.c_str()); }
         if (log.size() < 4000) { log.push_back(s); }
     }
     std::string program_text(std::size_t max_lines = 60) const {
@@ -336,6 +338,7 @@ public:
     }
 
     void do_put(const std::string& name, const std::string& key, MVal v, bool unique, int info_mode, bool want_created) {
+        if (pf_.judge_iscan) { want_created = true; }
         bool known_storage = model.count(name) != 0;
         note(std::string(unique ? "put_unique" : "put") + "(" + show(name) + ", \"" + show(key) + "\", id=" +
              std::to_string(v.id) + (v.inl ? " inline" : " len=" + std::to_string(v.bytes.size()) + " align=" +
@@ -368,6 +371,7 @@ public:
         }
         bool inserted = o.st == status::OK && !exists;
         if (o.st == status::OK) {
+            if (want_created && !v.inl) { values_by_id_[v.id] = {v.bytes, o.created}; }
             if (want_created) {
                 v.created = o.created;
                 if (pf_.judge_value && !v.inl) {
@@ -952,6 +956,7 @@ public:
         a.null_l = a.null_r = false;
         bool ea = c_.chance(1, 3);
         note("cursor_mix(" + show(name) + ", " + args_text(a) + (ea ? " early_abort" : "") + ")");
+        root_replaced_ = false;
         ++sub_evals;
         iscan_context* ctx = nullptr;
         void* val = nullptr;
@@ -974,6 +979,7 @@ public:
         bool writer_hit_cursor_border = false;
         while (rc == status::OK && steps < 400) {
             std::string k = ctx->full_key();
+            if (trace) { std::fprintf(stderr, "TRACE   cursor -> \"%s\"\n", show(k).c_str()); }
             ++st_.checks;
             if (!in_interval(k, a.l, a.le, a.r, a.re)) {
                 iscan_close(ctx);
@@ -991,8 +997,8 @@ public:
                     bool between = a.r2l ? (mk > k && (!have_last || mk < last)) : (mk < k && (!have_last || mk > lo));
                     if (between) {
                         iscan_close(ctx);
-                        std::string sig = "cursor_skipped_key";
-                        if (a.r2l) {
+                        std::string sig = skip_signature(mk);
+                        if (a.r2l && sig == "cursor_skipped_key") {
                             bool member = false;
                             for (std::size_t pos = 8; pos + 8 < mk.size(); pos += 8) {
                                 if (mk.compare(pos, 8, std::string(8, '\xff')) == 0) { member = true; }
@@ -1003,25 +1009,18 @@ public:
                     }
                 }
             }
-            // value was current at some instant since open
+            // value was current at some instant since open: the pointer is the stored copy of one of the values that were
+            // bound to k since the cursor was opened (identified by created_value_ptr), and its bytes are intact
             {
                 auto hit = hist.find(k);
                 bool okv = false;
                 if (hit != hist.end()) {
                     for (auto id : hit->second) {
-                        (void) id;
-                    }
-                    // identify the value by its bytes: compare with every id that was current
-                    for (auto id : hit->second) {
-                        auto cur = ms.find(k);
-                        const MVal* mv = nullptr;
-                        if (cur != ms.end() && cur->second.id == id) { mv = &cur->second; }
-                        if (mv != nullptr) {
-                            if (val != nullptr && std::memcmp(val, mv->bytes.data(), mv->bytes.size()) == 0) { okv = true; }
-                        } else {
-                            // an older value: it is retired but not freed (same session), its id-stamped bytes are intact
-                            std::string ob = old_values_[id];
-                            if (val != nullptr && !ob.empty() && std::memcmp(val, ob.data(), ob.size()) == 0) { okv = true; }
+                        auto vit = values_by_id_.find(id);
+                        if (vit == values_by_id_.end()) { continue; }
+                        if (vit->second.second == val && val != nullptr &&
+                            std::memcmp(val, vit->second.first.data(), vit->second.first.size()) == 0) {
+                            okv = true;
                         }
                     }
                 }
@@ -1033,6 +1032,16 @@ public:
             last = k;
             have_last = true;
             ++steps;
+            // layer of the cursor (for the open finding "layer root replaced under the cursor")
+            const std::size_t depth = k.empty() ? 0 : (k.size() - 1) / 8;
+            const std::string layer_prefix = k.substr(0, 8 * depth);
+            base_node* layer_root_before = nullptr;
+            if (depth >= 1) {
+                vf::WalkOut w0 = vf::walk(ti_of(name));
+                for (auto& e : w0.entries) {
+                    if (e.key == k) { layer_root_before = e.layer_root; }
+                }
+            }
             // interleave 0..3 writes
             bool structural_change_in_cursor_border = false;
             unsigned nw = static_cast<unsigned>(c_.weighted({3, 4, 2, 1}));
@@ -1043,10 +1052,8 @@ public:
                 node_version64_body ver_before = cur_bn != nullptr ? cur_bn->get_version() : node_version64_body{};
                 bool exists = ms.count(wk) != 0;
                 if (exists && c_.flip()) {
-                    old_values_[ms[wk].id] = ms[wk].bytes;
                     do_remove(name, wk);
                 } else {
-                    if (exists) { old_values_[ms[wk].id] = ms[wk].bytes; }
                     MVal v = gen_bulk_value();
                     do_put(name, wk, v, false, 0, false);
                 }
@@ -1062,6 +1069,22 @@ public:
                 }
             }
             if (structural_change_in_cursor_border) { writer_hit_cursor_border = true; }
+            if (layer_root_before != nullptr) {
+                node_version64_body rv = layer_root_before->get_version();
+                bool replaced = (!rv.get_root() && !rv.get_deleted()) || (rv.get_deleted() && !rv.get_border());
+                if (replaced) {
+                    // trigger of the open finding C10/cursor_layer_root_replaced_skip: the root of the next layer the cursor is
+                    // in was split or collapsed.  Excluded by construction in 7 of 8 cases so the search continues behind it.
+                    if (c_.range(0, 7) != 0) {
+                        if (record_) { ++st_.excluded_by_construction; }
+                        classes.insert("excluded_layer_root_replaced");
+                        iscan_close(ctx);
+                        return;
+                    }
+                    root_replaced_prefix_ = layer_prefix;
+                    root_replaced_ = true;
+                }
+            }
             rc = iscan_next(ctx, val);
             if (ea && pf_.judge_early_abort) {
                 ++st_.checks;
@@ -1076,9 +1099,9 @@ public:
                     iscan_close(ctx);
                     fail("iscan_status", "WARN_CONCURRENT_OPERATIONS without early_abort");
                 }
-                if (nw == 0) {
+                if (touched.empty()) {
                     iscan_close(ctx);
-                    fail("early_abort_spurious", "WARN_CONCURRENT_OPERATIONS although nothing was written since the last call");
+                    fail("early_abort_spurious", "WARN_CONCURRENT_OPERATIONS although nothing was written since the cursor was opened");
                 }
                 classes.insert("early_abort_fired");
                 break;
@@ -1095,8 +1118,8 @@ public:
                 bool beyond = !have_last || (a.r2l ? mk < last : mk > last);
                 if (beyond) {
                     iscan_close(ctx);
-                    std::string sig = "cursor_skipped_key";
-                    if (a.r2l) {
+                    std::string sig = skip_signature(mk);
+                    if (a.r2l && sig == "cursor_skipped_key") {
                         for (std::size_t pos = 8; pos + 8 < mk.size(); pos += 8) {
                             if (mk.compare(pos, 8, std::string(8, '\xff')) == 0) { sig = "iscan_reverse_ff_link"; }
                         }
@@ -1111,8 +1134,18 @@ public:
             if (writer_hit_cursor_border || steps > 15) { nontrivial = true; }
         }
     }
-    std::map<std::uint32_t, std::string> old_values_;
+    std::map<std::uint32_t, std::pair<std::string, const void*>> values_by_id_; // id -> (bytes, stored copy)
+    bool root_replaced_{false};
+    std::string root_replaced_prefix_;
 
+    // open finding: after the root of the cursor's layer was replaced, keys of that layer are skipped
+    std::string skip_signature(const std::string& missing) const {
+        if (root_replaced_ && missing.size() > root_replaced_prefix_.size() &&
+            missing.compare(0, root_replaced_prefix_.size(), root_replaced_prefix_) == 0) {
+            return "cursor_layer_root_replaced_skip";
+        }
+        return "cursor_skipped_key";
+    }
     // the border that currently holds `key` as a value entry (via the walker), or nullptr
     border_node* border_of(const std::string& name, const std::string& key) {
         tree_instance* ti = ti_of(name);
@@ -1148,6 +1181,7 @@ public:
                 }
             }
         }
+        if (!pf_.judge_full && !pf_.judge_storage) { return; } // C02 judges point operations only
         // (2) full forward scan
         std::vector<std::tuple<std::string, char*, std::size_t>> tl;
         status rc = scan<char>(name, "", scan_endpoint::INF, "", scan_endpoint::INF, tl, nullptr, 0, false);
@@ -1158,7 +1192,7 @@ public:
         for (auto& t : tl) { got.push_back(std::get<0>(t)); }
         if (got != exp) { fail("coherence_scan", "full forward scan differs from the model (" + std::to_string(got.size()) + " vs " + std::to_string(exp.size()) + ")"); }
         // (3) full backward iscan, reversed
-        {
+        if (pf_.judge_full) {
             iscan_context* ctx = nullptr;
             void* val = nullptr;
             std::vector<std::string> back;
@@ -1654,6 +1688,7 @@ inline vf::CaseResult run_case(const vf::RunnerArgs& args, const std::vector<std
     vf::CaseResult res;
     Chooser c(bytes);
     Interp in(pf, c, st, record);
+    in.trace = args.verbose;
     try {
         in.run();
     } catch (const Fail& f) {
